@@ -1,0 +1,125 @@
+//! Verification-only facade (`--cfg libp2p_verif`) over the private mplex [`Codec`].
+//!
+//! Forwards to the real `Encoder`/`Decoder` implementations; contains no framing logic of its own.
+
+use std::io;
+
+use asynchronous_codec::{Decoder as _, Encoder as _};
+use bytes::{Bytes, BytesMut};
+use libp2p_core::Endpoint;
+
+use super::{Codec, Frame, LocalStreamId, RemoteStreamId};
+
+#[derive(Debug, Clone, Copy, PartialEq, Eq)]
+pub enum Kind {
+    Open,
+    Data,
+    Close,
+    Reset,
+}
+
+/// A frame to encode, identified by the *local* stream id (`num`, `role`).
+#[derive(Debug, Clone, PartialEq, Eq)]
+pub struct LocalFrame {
+    pub kind: Kind,
+    pub num: u64,
+    pub role: Endpoint,
+    pub data: Bytes,
+}
+
+/// A decoded frame: the [`RemoteStreamId`] as decoded (`num`, `remote_role`) and the role of
+/// the [`LocalStreamId`] obtained from `RemoteStreamId::into_local()` (`local_role`).
+#[derive(Debug, Clone, PartialEq, Eq)]
+pub struct RemoteFrame {
+    pub kind: Kind,
+    pub num: u64,
+    pub remote_role: Endpoint,
+    pub local_role: Endpoint,
+    pub local_num: u64,
+    pub data: Bytes,
+}
+
+/// `Codec::encode` of one frame into a fresh buffer.
+pub fn encode(f: LocalFrame) -> io::Result<Bytes> {
+    let stream_id = LocalStreamId {
+        num: f.num,
+        role: f.role,
+    };
+    let frame = match f.kind {
+        Kind::Open => Frame::Open { stream_id },
+        Kind::Data => Frame::Data {
+            stream_id,
+            data: f.data,
+        },
+        Kind::Close => Frame::Close { stream_id },
+        Kind::Reset => Frame::Reset { stream_id },
+    };
+    let mut dst = BytesMut::new();
+    Codec::new().encode(frame, &mut dst)?;
+    Ok(dst.freeze())
+}
+
+fn repr(f: Frame<RemoteStreamId>) -> RemoteFrame {
+    let (kind, id, data) = match f {
+        Frame::Open { stream_id } => (Kind::Open, stream_id, Bytes::new()),
+        Frame::Data { stream_id, data } => (Kind::Data, stream_id, data),
+        Frame::Close { stream_id } => (Kind::Close, stream_id, Bytes::new()),
+        Frame::Reset { stream_id } => (Kind::Reset, stream_id, Bytes::new()),
+    };
+    let local = id.into_local();
+    RemoteFrame {
+        kind,
+        num: id.num,
+        remote_role: id.role,
+        local_role: local.role,
+        local_num: local.num,
+        data,
+    }
+}
+
+/// One `Codec` plus the byte buffer a `Framed` would own.
+pub struct Decoder {
+    codec: Codec,
+    buf: BytesMut,
+}
+
+impl Default for Decoder {
+    fn default() -> Self {
+        Self::new()
+    }
+}
+
+impl Decoder {
+    pub fn new() -> Self {
+        Decoder {
+            codec: Codec::new(),
+            buf: BytesMut::new(),
+        }
+    }
+
+    /// Appends `bytes` and calls `Codec::decode` until it returns `Ok(None)` or `Err`.
+    pub fn feed(&mut self, bytes: &[u8]) -> Vec<io::Result<RemoteFrame>> {
+        self.buf.extend_from_slice(bytes);
+        let mut out = Vec::new();
+        loop {
+            match self.codec.decode(&mut self.buf) {
+                Ok(Some(f)) => out.push(Ok(repr(f))),
+                Ok(None) => return out,
+                Err(e) => {
+                    out.push(Err(e));
+                    return out;
+                }
+            }
+        }
+    }
+
+    /// Bytes fed but not yet consumed by `Codec::decode`.
+    pub fn buffered(&self) -> usize {
+        self.buf.len()
+    }
+
+    /// Capacity of the byte buffer handed to `Codec::decode`.
+    pub fn buffer_capacity(&self) -> usize {
+        self.buf.capacity()
+    }
+}
